@@ -46,14 +46,17 @@ def decorated_listing(g):
                 base, idx, sc = "%" + g.pick(gen_lines.REG64), "%" + g.pick(gen_lines.REG64), g.pick(["1", "2", "4", "8"])
                 disp = g.pick(["", "0x40", "-0x8", "0x200"])
                 inner = g.pick(["(%s,%s,%s)" % (base, idx, sc), "(%s)" % base, "(,%s,%s)" % (idx, sc)])
-                ops.append(disp + inner + g.pick(["", "{1to4}", "{1to16}", "{%k1}", "{%k3}{z}"]))
+                seg = g.pick(["", "", "", "%fs:", "%gs:", "%es:", "%cs:"])      # segment override: `%fs:(%rax,%rbx,1)`
+                ops.append(seg + disp + inner + g.pick(["", "", "{1to4}", "{1to16}", "{%k1}", "{%k3}{z}"]))
+            elif g.chance(0.1):
+                ops.append(g.pick(["%fs:0x28", "%gs:0x10", "%st(1)", "%st", "%es:(%rdi)", "%ds:(%rsi)"]))
             elif g.chance(0.1):
                 ops.append(g.pick(["{rn-sae}", "{sae}", "{rz-sae}"]))
             else:
                 ops.append(g.pick(VREGS) + g.pick(DECOR))
         nb = g.int(6, 8)
         byts = " ".join("%02x" % g.int(0, 255) for _ in range(min(nb, 7))) + " "
-        lines.append("%8x:\t%s\t%s %s" % (addr, byts, g.pick(["vaddpd", "vmovups", "vmulps", "vsqrtsd", "vmovdqa64"]), ",".join(ops)))
+        lines.append("%8x:\t%s\t%s %s" % (addr, byts, g.pick(["vaddpd", "vmovups", "vmulps", "vsqrtsd", "vmovdqa64", "mov", "movsb", "fadd"]), ",".join(ops)))
         addr += nb
     return "\n".join(lines) + "\n"
 
